@@ -203,7 +203,46 @@ def shrink(req):
         yield " ".join(t[:10] + ["".join(c) if c else "-"] + t[11:])
 
 
+# units that make the SCANNER report: unpaired lead / trail surrogate (CIF_INVALID_CHAR 102), disallowed BMP characters and
+# non-characters (CIF_DISALLOWED_CHAR 104); in CIF 1.1 also any non-ASCII character
+DEFECT_UNITS = ["\ud800", "\udbff", "\udc00", "\x01", "\x7f", "\x9f", "\ufeff", "\ufffe", "\ufdd0", "\U0001fffe"]
+DEFECT_UNITS_V1 = ["\ud800", "\udc00", "\x01", "\xe9", "\u4e2d"]
+# every token context: bare value, quoted, triple-quoted, text field, data name, block code, frame code, comment, between tokens,
+# list element, table key, table value, end of input
+DEFECT_CONTEXTS = ["data_a _x ab%scd\n", "data_a _x 'ab%scd'\n", "data_a _x \"\"\"ab%scd\"\"\"\n", "data_a _x\n;ab%scd\n;\n",
+                   "data_a _n%sm 1\n", "data_b%sc _x 1\n", "data_a save_f%sg _x 1 save_\n", "data_a #c%sd\n_x 1\n",
+                   "data_a %s _x 1\n", "data_a _x [ p%sq ]\n", "data_a _x {'k%sl':1}\n", "data_a _x {'k':v%sw}\n", "data_a _x ab%s"]
+DEFECT_CONTEXTS_V1 = ["data_a _x ab%scd\n", "data_a _x 'ab%scd'\n", "data_a _x\n;ab%scd\n;\n", "data_a _n%sm 1\n", "data_a #c%sd\n_x 1\n",
+                      "data_a %s _x 1\n", "data_a _x ab%s"]
+ADJ_POLICIES = ["c102:7777", "c104:7777", "r0:7777", "r1:7777", "r2:-1"]
+
+
+def adjacent_defects():
+    """systematic ADJACENT pairs of units that each raise a scanner report, in every token context, under policies that reject
+    exactly one of the two codes or the k-th report: the first non-zero answer must end the parse (a later report must not
+    overwrite it); also a defect unit as the 2048th / 2049th character of a line (CIF_OVERLENGTH_LINE next to it)"""
+    base = {"mfd": 1, "fold": 0, "prefix": 0, "ews": "", "eeol": "", "nutf8": 0, "target": "e"}
+    for dia, units_, ctxs in ((2, DEFECT_UNITS, DEFECT_CONTEXTS), (1, DEFECT_UNITS_V1, DEFECT_CONTEXTS_V1)):
+        o = dict(base, dia=dia)
+        for ci, ctx in enumerate(ctxs):
+            for i, u1 in enumerate(units_):
+                for j, u2 in enumerate(units_):
+                    # all policies for the pairs with a surrogate in front, a rotating one for the others (keeps the tier quick)
+                    pols = ADJ_POLICIES if i < 3 else [ADJ_POLICIES[(ci + i + j) % len(ADJ_POLICIES)]]
+                    for pol in pols:
+                        yield request_for(ctx % (u1 + u2), o, pol)
+        # a defect unit next to the end of an over-long line
+        for ctx in ("data_a _x %s\n", "data_a _x '%s'\n", "data_a #%s\n_x 1\n"):
+            for u in units_[:6]:
+                for n in (2047, 2048):
+                    fill = "a" * (n - len(ctx.split("%s")[0]) - (1 if "'" in ctx else 0))
+                    for pol in ("c102:7777", "c104:7777", "c108:7777", "r0:7777", "r1:7777"):
+                        yield request_for(ctx % (fill + u), o, pol)
+
+
 def generate(seed, tier):
+    for req in adjacent_defects():
+        yield req
     r = rng(seed, FAMILY)
     n_docs = 700 if tier == "quick" else 30000
     per = 5
